@@ -1,54 +1,40 @@
-import QP.Proofs.C10Round
+import QP.Proofs.C10Pend
 /-! C10: the encoder as it runs (`encT`, with the transaction dictionary) computes the declarative
 documents `emit`/`body` and inserts exactly the pending named nodes, children first. -/
 namespace QP.C10
 set_option linter.unusedSimpArgs false
 set_option linter.unusedVariables false
+set_option linter.unusedSectionVars false
 
-/-- `_transaction_storage[n.identifier] = (document of n, n)` -/
-def ins (txn : Txn) (n : T) : Txn :=
-  match n.id with
-  | some i => put i (body n, n) txn
-  | none => txn
+/-- no node handed to the storage while encoding the attributes of `t` carries `t`'s identifier -/
+theorem pendItems_no_self {F : List T} (hu : UniqueIds F) (st : St) {t : T} {i : Id} (hid : t.id = some i)
+    (hU : ∀ x ∈ subterms t, x ∈ Univ F) {txn : Txn} (hno : lookup i txn = none) :
+    lookup i ((pendItems st t.items).foldl ins txn) = none := by
+  cases hl : lookup i ((pendItems st t.items).foldl ins txn) with
+  | none => rfl
+  | some v =>
+    obtain ⟨d, n⟩ := v
+    rcases fold_ins_lookup _ txn i d n hl with h | h
+    · rw [hno] at h; exact absurd h (by simp)
+    · have hn := (pendItems_sub st t.items n h.1).1
+      have hsub : n ∈ subterms t := by
+        cases t with
+        | node cls id items => rw [subterms_node]; exact List.mem_append_left _ hn
+      exact absurd (uniq hu (hU n hsub) (hU t (self_mem_subterms t)) h.2.1 hid) (strict_ne t n hn)
 
-mutual
-/-- the named nodes the encoder hands to `storage[id] = o` while encoding `t` as a child, in order
-(with repetitions: a shared node that is not yet in the storage is encoded again) -/
-def pendT (st : St) : T → List T
-  | .node cls id items =>
-    match id with
-    | none => pendItems st items
-    | some i => if st.has i then [] else pendItems st items ++ [.node cls id items]
-def pendItems (st : St) : List Item → List T
-  | [] => []
-  | .data _ _ :: rest => pendItems st rest
-  | .child _ t :: rest => pendT st t ++ pendItems st rest
-  | .children _ ts :: rest => pendList st ts ++ pendItems st rest
-def pendList (st : St) : List T → List T
-  | [] => []
-  | t :: ts => pendT st t ++ pendList st ts
-end
-
-/-- every named node of `L` that is already in the storage is in the temporary storage as that object -/
-def Compat (st : St) (L : List T) : Prop :=
-  ∀ c ∈ L, ∀ i, c.id = some i → st.has i = true → lookup i st.temp = some c
-
-theorem Compat.mono {st : St} {L L' : List T} (h : ∀ c ∈ L', c ∈ L) (hc : Compat st L) : Compat st L' :=
-  fun c hcm i hi hs => hc c (h c hcm) i hi hs
-
-theorem self_mem_subterms (t : T) : t ∈ subterms t := by
-  cases t; rw [subterms_node]; simp
-
-theorem foldl_ins_append (txn : Txn) (a b : List T) :
-    (a ++ b).foldl ins txn = b.foldl ins (a.foldl ins txn) := List.foldl_append
+section
+variable {F : List T} (hu : UniqueIds F)
+include hu
 
 mutual
-theorem enc_T (st : St) : (t : T) → (txn : Txn) → Compat st (subterms t) →
+theorem enc_T (st : St) : (t : T) → (txn : Txn) → Compat st (subterms t) → (∀ x ∈ subterms t, x ∈ Univ F) →
+    TxnVal F txn → TxnClosed st txn →
     encT st txn t = .ok ((pendT st t).foldl ins txn, emit t)
-  | .node cls id items, txn, hc => by
-    have hci : Compat st (subtermsItems items) :=
-      hc.mono (fun c h => by rw [subterms_node]; exact List.mem_append_left _ h)
-    have ih := enc_items st cls items txn hci
+  | .node cls id items, txn, hc, hU, hv, hcl => by
+    have hsub : ∀ x ∈ subtermsItems items, x ∈ subterms (T.node cls id items) :=
+      fun x hx => by rw [subterms_node]; exact List.mem_append_left _ hx
+    have hci : Compat st (subtermsItems items) := hc.mono hsub
+    have ih := enc_items st cls items txn hci (fun x hx => hU x (hsub x hx)) hv hcl
     cases id with
     | none =>
       simp only [encT, ih, pendT, emit, bind, Except.bind, pure, Except.pure]
@@ -57,136 +43,102 @@ theorem enc_T (st : St) : (t : T) → (txn : Txn) → Compat st (subterms t) →
       · have := hc _ (self_mem_subterms _) i rfl hs
         simp only [encT, hs, if_true, this, pendT, emit, List.foldl_nil, pure, Except.pure]
       · have hs' : st.has i = false := by simpa using hs
-        simp only [encT, hs', Bool.false_eq_true, if_false, ih, pendT, emit, bind, Except.bind, pure,
-          Except.pure, foldl_ins_append, List.foldl_cons, List.foldl_nil, ins, T.id, body]
+        cases hl : lookup i txn with
+        | some e =>
+          obtain ⟨d, o⟩ := e
+          have ho := hv i d o hl
+          have hot : o = T.node cls (some i) items :=
+            uniq hu ho.1 (hU _ (self_mem_subterms _)) ho.2.1 rfl
+          -- everything that encoding the node again would hand to the storage is in the transaction already
+          have hid1 : ∀ n ∈ pendItems st items, ins txn n = txn := by
+            intro n hn
+            obtain ⟨hnsub, hnamed⟩ := pendItems_sub st items n hn
+            obtain ⟨k, hk⟩ : ∃ k, n.id = some k := by
+              simp only [T.named] at hnamed; exact Option.isSome_iff_exists.mp hnamed
+            have hhas := hcl i d o hl n (by rw [hot]; exact hn) k hk
+            obtain ⟨v, hv'⟩ := (hasKey_true_iff _ _).mp hhas
+            obtain ⟨d', m⟩ := v
+            have hm := hv k d' m hv'
+            have hmn : m = n := uniq hu hm.1 (hU n (hsub n hnsub)) hm.2.1 hk
+            rw [ins_named hk]
+            apply put_self; rw [hv', hm.2.2, hmn]
+          have hfold : (pendItems st items ++ [T.node cls (some i) items]).foldl ins txn = txn := by
+            rw [foldl_ins_append, fold_ins_id _ txn hid1]
+            simp only [List.foldl_cons, List.foldl_nil]
+            rw [ins_named (show (T.node cls (some i) items).id = some i from rfl)]
+            apply put_self; rw [hl, ho.2.2, hot]
+          simp only [encT, hs', Bool.false_eq_true, if_false, hl, hot, if_true, pendT, emit, hfold, pure, Except.pure]
+        | none =>
+          have hno := pendItems_no_self hu st (t := T.node cls (some i) items) rfl hU hl
+          simp only [T.items] at hno
+          have hk : hasKey i ((pendItems st items).foldl ins txn) = false := by
+            simp only [hasKey, hno]; rfl
+          simp only [encT, hs', Bool.false_eq_true, if_false, hl, ih, hk, pendT, emit, bind, Except.bind, pure,
+            Except.pure, foldl_ins_append, List.foldl_cons, List.foldl_nil, ins, T.id, body]
 theorem enc_items (st : St) (cls : Cls) : (items : List Item) → (txn : Txn) →
-    Compat st (subtermsItems items) →
+    Compat st (subtermsItems items) → (∀ x ∈ subtermsItems items, x ∈ Univ F) → TxnVal F txn → TxnClosed st txn →
     encItems st cls txn items = .ok ((pendItems st items).foldl ins txn, bodyItems cls items)
-  | [], txn, _ => rfl
-  | .data k j :: rest, txn, hc => by
-    simp only [subtermsItems] at hc
-    have ih := enc_items st cls rest txn hc
+  | [], txn, _, _, _, _ => rfl
+  | .data k j :: rest, txn, hc, hU, hv, hcl => by
+    simp only [subtermsItems] at hc hU
+    have ih := enc_items st cls rest txn hc hU hv hcl
     by_cases he : emitted cls (.data k j) = true
     · simp only [encItems, he, if_true, ih, pendItems, bodyItems, bind, Except.bind, pure, Except.pure]
     · have he' : emitted cls (.data k j) = false := by simpa using he
       simp only [encItems, he', Bool.false_eq_true, if_false, ih, pendItems, bodyItems]
-  | .child k t :: rest, txn, hc => by
-    simp only [subtermsItems] at hc
-    have h1 := enc_T st t txn (hc.mono (fun c h => List.mem_append_left _ h))
+  | .child k t :: rest, txn, hc, hU, hv, hcl => by
+    simp only [subtermsItems] at hc hU
+    have hUt : ∀ x ∈ subterms t, x ∈ Univ F := fun x hx => hU x (List.mem_append_left _ hx)
+    have h1 := enc_T st t txn (hc.mono (fun c h => List.mem_append_left _ h)) hUt hv hcl
+    have hLU : ∀ n ∈ pendT st t, n ∈ Univ F := fun n hn => hUt n (pendT_sub st t n hn).1
     have h2 := enc_items st cls rest ((pendT st t).foldl ins txn) (hc.mono (fun c h => List.mem_append_right _ h))
+      (fun x hx => hU x (List.mem_append_right _ hx)) (fold_val hv hLU)
+      (fold_closed hu hv hcl hLU (pendT_closed st t))
     simp only [encItems, h1, h2, pendItems, bodyItems, bind, Except.bind, pure, Except.pure, foldl_ins_append]
-  | .children k ts :: rest, txn, hc => by
-    simp only [subtermsItems] at hc
-    have h1 := enc_list st ts txn (hc.mono (fun c h => List.mem_append_left _ h))
+  | .children k ts :: rest, txn, hc, hU, hv, hcl => by
+    simp only [subtermsItems] at hc hU
+    have hUt : ∀ x ∈ subtermsList ts, x ∈ Univ F := fun x hx => hU x (List.mem_append_left _ hx)
+    have h1 := enc_list st ts txn (hc.mono (fun c h => List.mem_append_left _ h)) hUt hv hcl
+    have hLU : ∀ n ∈ pendList st ts, n ∈ Univ F := fun n hn => hUt n (pendList_sub st ts n hn).1
     have h2 := enc_items st cls rest ((pendList st ts).foldl ins txn) (hc.mono (fun c h => List.mem_append_right _ h))
+      (fun x hx => hU x (List.mem_append_right _ hx)) (fold_val hv hLU)
+      (fold_closed hu hv hcl hLU (pendList_closed st ts))
     simp only [encItems, h1, h2, pendItems, bodyItems, bind, Except.bind, pure, Except.pure, foldl_ins_append]
 theorem enc_list (st : St) : (ts : List T) → (txn : Txn) → Compat st (subtermsList ts) →
+    (∀ x ∈ subtermsList ts, x ∈ Univ F) → TxnVal F txn → TxnClosed st txn →
     encList st txn ts = .ok ((pendList st ts).foldl ins txn, emitList ts)
-  | [], txn, _ => rfl
-  | t :: ts, txn, hc => by
-    simp only [subtermsList] at hc
-    have h1 := enc_T st t txn (hc.mono (fun c h => List.mem_append_left _ h))
+  | [], txn, _, _, _, _ => rfl
+  | t :: ts, txn, hc, hU, hv, hcl => by
+    simp only [subtermsList] at hc hU
+    have hUt : ∀ x ∈ subterms t, x ∈ Univ F := fun x hx => hU x (List.mem_append_left _ hx)
+    have h1 := enc_T st t txn (hc.mono (fun c h => List.mem_append_left _ h)) hUt hv hcl
+    have hLU : ∀ n ∈ pendT st t, n ∈ Univ F := fun n hn => hUt n (pendT_sub st t n hn).1
     have h2 := enc_list st ts ((pendT st t).foldl ins txn) (hc.mono (fun c h => List.mem_append_right _ h))
+      (fun x hx => hU x (List.mem_append_right _ hx)) (fold_val hv hLU)
+      (fold_closed hu hv hcl hLU (pendT_closed st t))
     simp only [encList, h1, h2, pendList, emitList, bind, Except.bind, pure, Except.pure, foldl_ins_append]
 end
 
-/-- the named nodes written by `overwrite st i t`, in transaction order (with repetitions) -/
-def pendRoot (st : St) (t : T) : List T := pendItems st t.items ++ [t]
-
-theorem overwrite_spec (st : St) (i : Id) (t : T) (hid : t.id = some i) (hc : Compat st (subterms t)) :
+theorem overwrite_spec (st : St) (i : Id) (t : T) (hid : t.id = some i) (hc : Compat st (subterms t))
+    (hU : ∀ x ∈ subterms t, x ∈ Univ F) :
     overwrite st i t =
       .ok (commit st ((pendRoot st t).foldl ins []),
            ((pendRoot st t).foldl ins []).map (fun e => (e.1, e.2.1))) := by
+  have hno := pendItems_no_self hu st hid hU (txn := []) rfl
   cases t with
   | node cls id items =>
     have hid' : id = some i := hid
     subst hid'
-    have hci : Compat st (subtermsItems items) :=
-      hc.mono (fun c h => by rw [subterms_node]; exact List.mem_append_left _ h)
-    simp only [overwrite, enc_items st cls items [] hci, bind, Except.bind, pure, Except.pure, pendRoot,
-      T.items, foldl_ins_append, List.foldl_cons, List.foldl_nil, ins, T.id, body]
+    have hsub : ∀ x ∈ subtermsItems items, x ∈ subterms (T.node cls (some i) items) :=
+      fun x hx => by rw [subterms_node]; exact List.mem_append_left _ hx
+    simp only [T.items] at hno
+    have hk : hasKey i ((pendItems st items).foldl ins []) = false := by
+      simp only [hasKey, hno]; rfl
+    have henc := enc_items hu st cls items [] (hc.mono hsub) (fun x hx => hU x (hsub x hx))
+      (fun j d m h => by simp at h) (fun j d m h => by simp at h)
+    simp only [overwrite, henc, hk, bind, Except.bind, pure, Except.pure, pendRoot,
+      T.items, foldl_ins_append, List.foldl_cons, List.foldl_nil, ins, T.id, body, Bool.false_eq_true, if_false]
 
-/-! ### sub-terms -/
-
-mutual
-theorem pendT_sub (st : St) : (t : T) → ∀ n ∈ pendT st t, n ∈ subterms t ∧ n.named = true
-  | .node cls id items, n, h => by
-    rw [subterms_node]
-    cases id with
-    | none =>
-      simp only [pendT] at h
-      have := pendItems_sub st items n h
-      exact ⟨List.mem_append_left _ this.1, this.2⟩
-    | some i =>
-      simp only [pendT] at h
-      by_cases hs : st.has i = true
-      · simp [hs] at h
-      · have hs' : st.has i = false := by simpa using hs
-        simp only [hs', Bool.false_eq_true, if_false, List.mem_append, List.mem_singleton] at h
-        rcases h with h | h
-        · have := pendItems_sub st items n h
-          exact ⟨List.mem_append_left _ this.1, this.2⟩
-        · subst h; exact ⟨by simp, rfl⟩
-theorem pendItems_sub (st : St) : (items : List Item) → ∀ n ∈ pendItems st items,
-    n ∈ subtermsItems items ∧ n.named = true
-  | [], n, h => by simp [pendItems] at h
-  | .data _ _ :: rest, n, h => by
-    simp only [pendItems] at h
-    simpa only [subtermsItems] using pendItems_sub st rest n h
-  | .child _ t :: rest, n, h => by
-    simp only [pendItems, List.mem_append] at h
-    simp only [subtermsItems, List.mem_append]
-    rcases h with h | h
-    · have := pendT_sub st t n h; exact ⟨Or.inl this.1, this.2⟩
-    · have := pendItems_sub st rest n h; exact ⟨Or.inr this.1, this.2⟩
-  | .children _ ts :: rest, n, h => by
-    simp only [pendItems, List.mem_append] at h
-    simp only [subtermsItems, List.mem_append]
-    rcases h with h | h
-    · have := pendList_sub st ts n h; exact ⟨Or.inl this.1, this.2⟩
-    · have := pendItems_sub st rest n h; exact ⟨Or.inr this.1, this.2⟩
-theorem pendList_sub (st : St) : (ts : List T) → ∀ n ∈ pendList st ts,
-    n ∈ subtermsList ts ∧ n.named = true
-  | [], n, h => by simp [pendList] at h
-  | t :: ts, n, h => by
-    simp only [pendList, List.mem_append] at h
-    simp only [subtermsList, List.mem_append]
-    rcases h with h | h
-    · have := pendT_sub st t n h; exact ⟨Or.inl this.1, this.2⟩
-    · have := pendList_sub st ts n h; exact ⟨Or.inr this.1, this.2⟩
-end
-
-mutual
-theorem subterms_trans : (t : T) → ∀ n ∈ subterms t, ∀ c ∈ subterms n, c ∈ subterms t
-  | .node cls id items, n, hn, c, hc => by
-    rw [subterms_node] at hn ⊢
-    rcases List.mem_append.mp hn with h | h
-    · exact List.mem_append_left _ (subtermsItems_trans items n h c hc)
-    · simp only [List.mem_singleton] at h; subst h
-      rw [subterms_node] at hc; exact hc
-theorem subtermsItems_trans : (items : List Item) → ∀ n ∈ subtermsItems items, ∀ c ∈ subterms n,
-    c ∈ subtermsItems items
-  | [], n, hn, _, _ => by simp [subtermsItems] at hn
-  | .data _ _ :: rest, n, hn, c, hc => by
-    simp only [subtermsItems] at hn ⊢
-    exact subtermsItems_trans rest n hn c hc
-  | .child _ t :: rest, n, hn, c, hc => by
-    simp only [subtermsItems, List.mem_append] at hn ⊢
-    rcases hn with h | h
-    · exact Or.inl (subterms_trans t n h c hc)
-    · exact Or.inr (subtermsItems_trans rest n h c hc)
-  | .children _ ts :: rest, n, hn, c, hc => by
-    simp only [subtermsItems, List.mem_append] at hn ⊢
-    rcases hn with h | h
-    · exact Or.inl (subtermsList_trans ts n h c hc)
-    · exact Or.inr (subtermsItems_trans rest n h c hc)
-theorem subtermsList_trans : (ts : List T) → ∀ n ∈ subtermsList ts, ∀ c ∈ subterms n, c ∈ subtermsList ts
-  | [], n, hn, _, _ => by simp [subtermsList] at hn
-  | t :: ts, n, hn, c, hc => by
-    simp only [subtermsList, List.mem_append] at hn ⊢
-    rcases hn with h | h
-    · exact Or.inl (subterms_trans t n h c hc)
-    · exact Or.inr (subtermsList_trans ts n h c hc)
 end
 
 /-! ### what is not pending is already stored -/
